@@ -128,6 +128,16 @@ def check_forward(ctx: Check, tree: Tree) -> None:
                 n_triples += 1
                 arg = next((k.value for k in call.keywords if k.arg == p), None)
                 if arg is None:
+                    # **mapping with a literal dict that supplies the parameter
+                    for k in call.keywords:
+                        if k.arg is None:
+                            cand = [k.value] + [d.value for d in rd_top.reaching(k.value) if d.value is not None] if isinstance(k.value, ast.Name) else [k.value]
+                            for dnode in cand:
+                                if isinstance(dnode, ast.Dict):
+                                    for kk, vv in zip(dnode.keys, dnode.values):
+                                        if isinstance(kk, ast.Constant) and kk.value == p:
+                                            arg = vv
+                if arg is None:
                     i = sig.index(p)
                     if i < len(call.args) and not any(isinstance(a, ast.Starred) for a in call.args[: i + 1]):
                         arg = call.args[i]
